@@ -45,8 +45,14 @@ func (s *c17Scenario) files() map[string]string {
 				fmt.Fprintf(&sb, "type Out%s struct{ V int; W string }\n\n", c.name)
 			}
 			sb.WriteString("// goverter:converter\n")
-			if c.fault == "directive" {
+			switch c.fault {
+			case "directive":
 				sb.WriteString("// goverter:bogusSetting yes\n")
+			case "render":
+				// fails only when the finished file is rendered, i.e. after every converter was generated in memory
+				sb.WriteString("// goverter:output:raw func broken( {\n")
+			case "extend":
+				sb.WriteString("// goverter:extend NoSuchFunction\n")
 			}
 			switch c.out {
 			case "own":
@@ -91,7 +97,7 @@ func mutating(evs []core.FSEvent) []string {
 // C17: a failing run changes no files and the exit status reflects the outcome.
 func C17(e *core.Env) int {
 	rep := core.NewReport(e, "fault_enumeration")
-	rep.Rule = "scenarios of 2-5 packages with 2-7 converters (default, own-file, shared-package and same-package outputs); for every scenario every non-empty subset of converters (all subsets up to 4 converters, seeded random subsets beyond) is made faulty at one of three stages (directive parsing, signature, conversion) with prior output state none/current/stale/foreign; each run is the real CLI under strace -ff: a failing run must exit 1 with a diagnostic, perform no successful create/truncate/write/rename/unlink/mkdir/chmod below the module tree, and leave the tree digest (content, mode, mtime) unchanged; the fault-free run must exit 0 and leave exactly the bytes of the in-process generation result; help exits 0, usage errors exit 1, neither writes; injected ENOSPC/EACCES on write/openat/mkdirat of an output must not end in exit 0 with a missing or short file; non-trivial = a run with >=1 faulty and >=1 healthy converter, or an injected fault that fired; distinct = (scenario shape, faulty subset, stages, prior state)"
+	rep.Rule = "scenarios of 2-5 packages with 2-7 converters (default, own-file, shared-package and same-package outputs); for every scenario every non-empty subset of converters (all subsets up to 4 converters, seeded random subsets beyond) is made faulty at one of five stages (directive parsing, custom function lookup, signature, conversion, rendering of the finished file) with prior output state none/current/stale/foreign; each run is the real CLI under strace -ff: a failing run must exit 1 with a diagnostic, perform no successful create/truncate/write/rename/unlink/mkdir/chmod below the module tree, and leave the tree digest (content, mode, mtime) unchanged; the fault-free run must exit 0 and leave exactly the bytes of the in-process generation result; help exits 0, usage errors exit 1, neither writes; injected ENOSPC/EACCES on write/openat/mkdirat of an output must not end in exit 0 with a missing or short file; non-trivial = a run with >=1 faulty and >=1 healthy converter, or an injected fault that fired; distinct = (scenario shape, faulty subset, stages, prior state)"
 	rep.Assumptions = []string{"strace sees every file-system syscall of the CLI and its children", "the in-process generation result (public API) is the reference for the bytes of a successful run"}
 	rep.Floor = tierN(e, 20, 300)
 	bin, err := e.BuildCLI("plain")
@@ -115,7 +121,7 @@ func C17(e *core.Env) int {
 		label  string
 	}
 	var runs []run
-	stages := []string{"directive", "signature", "conversion"}
+	stages := []string{"directive", "signature", "conversion", "render", "extend"}
 	priors := []string{"none", "current", "stale", "foreign"}
 	outs := []string{"", "", "own", "shared", "same"}
 	for si := 0; si < nScen; si++ {
@@ -163,7 +169,7 @@ func C17(e *core.Env) int {
 			sc.convs = append([]c17Conv{}, base.convs...)
 			var lab []string
 			for _, k := range sub {
-				sc.convs[k].fault = stages[r.Intn(3)]
+				sc.convs[k].fault = stages[r.Intn(len(stages))]
 				lab = append(lab, sc.convs[k].name+":"+sc.convs[k].fault)
 			}
 			sc.prior = priors[r.Intn(len(priors))]
